@@ -89,6 +89,28 @@ def run(ck: Check) -> None:
             ck.violation("accepted without threshold-many valid authorized signers" if r.impl == "OK" else "an unmet threshold was not reported as a signature error",
                          {"ignored_entries": r.case.meta["states"]["crowded"], "valid_authorized_signers": 1, "threshold": 2, "mode": r.case.tag, "impl": r.impl},
                          ("unsound:" if r.impl == "OK" else "class:") + r.case.tag + ":crowded")
+    # directed: an authorized list that names one signer twice (two roles' lists concatenated) — [A, A, B], [A, B, A], [B, A, A] … — where A's valid signature is
+    # also filed under B's key id: B's index holds a signature that is not B's, so A alone is one signer, whatever the list looks like
+    rep = []
+    A_, B_, C_ = gen.key(1), gen.key(2), gen.key(3)
+    for gpg in (False, True):
+        for auth_ in ([A_, A_, B_], [A_, B_, A_], [B_, A_, A_], [A_, A_, B_, B_], [A_, B_, C_, A_], [A_, A_, A_, B_]):
+            signed = {"repeated": [k.idx for k in auth_]}
+            data = gen.oracle_bytes(signed)
+            env = gen.envelope(signed)
+            ea = gen.gpg_entry(A_, data, gen.GPG_HDR_TYPICAL) if gpg else gen.raw_entry(A_, data)
+            env["signatures"][A_.hex] = ea
+            env["signatures"][B_.hex] = copy.deepcopy(ea)          # A's signature, mis-filed under B
+            for thr, want in ((1, "OK"), (2, "E SignatureError")):
+                rep.append((Case("vsignable", [env, [k.hex for k in auth_], thr, gpg], tag="gpg" if gpg else "raw", group=600000 + len(rep),
+                                 meta={"states": {"authorized": "repeated"}, "count": 1, "thr": str(thr)}), want))
+    for (c_, want), r in zip(rep, ck.run_cases([c for c, _ in rep], "corr:verify_signable/outcome-class")):
+        ck.oracle_checks += 1
+        ck.count("repeated-authorized-key")
+        if r.impl != want:
+            ck.violation("accepted without threshold-many valid authorized signers" if r.impl == "OK" else "one valid authorized signer does not meet threshold 1 when the authorized list repeats a key",
+                         {"authorized_pattern": c_.args[0]["signed"]["repeated"], "threshold": c_.meta["thr"], "mode": c_.tag, "impl": r.impl, "expected": want},
+                         ("unsound:" if r.impl == "OK" else "incomplete:") + c_.tag + ":repeated-authorized")
     # entry by entry: the class the model's loop body assigns to every entry of every envelope (driver op `vclass`, Model/Auth.lean `entryClass`; theorem
     # entryClass_counts_iff) against the independent oracle's per-key verdict — a finer comparison than the call's verdict, and a record of which branches
     # of the model the run exercised
